@@ -135,7 +135,10 @@ def colors(m, meta):
                 if got != want or calls["r"] != (1 if enabled else 0):
                     problems.append({"reply": reply, "queries_enabled": enabled, "got": got, "expected": want, "drains": calls["r"]})
                 if enabled and want != (None, None):
-                    hx = tuple(fn(hex=True))
+                    try:
+                        hx = tuple(fn(hex=True))
+                    except Exception as e:  # noqa: BLE001
+                        hx = f"{type(e).__name__}: {e}"
                     whx = tuple(None if c is None else "#%02x%02x%02x" % c for c in want)
                     if hx != whx:
                         problems.append({"reply": reply, "hex": hx, "expected": whx})
@@ -166,9 +169,22 @@ def read_loops(m, meta):
                 problems.append(("drain", "returned", rest[:30], "expected", data[k:][:30]))
             if U.read_tty() != b"":
                 problems.append(("second drain not empty",))
-        # nothing queued: the timed read gives up after its timeout, the drain returns at once
-        if U.read_tty(lambda s: True, 0.05) != b"" or U.read_tty() != b"":
-            problems.append(("read on an empty queue returned data",))
+        # nothing queued: the timed read gives up after its timeout, the drain returns at once.  A silent terminal must not block
+        # the read: it runs on a watched thread (a read that hangs keeps the tty lock, so nothing else is tried after it)
+        import threading, time
+        for tmo, pred in ((0.05, lambda s: True), (0.2, lambda s: not s.endswith(b"c")), (0.05, lambda s: len(s) < 3)):
+            box = {}
+            th = threading.Thread(target=lambda: box.setdefault("got", U.read_tty(pred, tmo)), daemon=True)
+            t0 = time.monotonic()
+            th.start()
+            th.join(tmo * 20 + 2)
+            if th.is_alive():
+                problems.append((f"timed read (timeout {tmo} s) on a terminal that sends nothing has not returned after {time.monotonic() - t0:.1f} s",))
+                return {"reproduced": True, "input": "a pty that never replies", "observed": [repr(p)[:300] for p in problems[:3]]}
+            if box.get("got") != b"" or time.monotonic() - t0 < tmo:
+                problems.append(("timed read on an empty queue", "returned", box.get("got"), "after", round(time.monotonic() - t0, 3), "s; time-out", tmo))
+        if U.read_tty() != b"":
+            problems.append(("drain on an empty queue returned data",))
     finally:
         U._tty_fd = saved
         os.close(master)
